@@ -167,7 +167,7 @@ theorem reduce_inv (F : CertFacts T C) (hA : ActionsSafe T env I) (s : St) (p : 
     | (_, some o) => GoodOutcome I o
     | (s', none) => Inv C I s' := by
   obtain ⟨st, hst⟩ := topState_of_chain C h.chain
-  obtain ⟨prod, hp, hk, heq, hdrv, hchain⟩ := reduce_safe T C F env s (topState s) st p la hst h.chain hred
+  obtain ⟨prod, hp, hk, _, heq, hdrv, hchain⟩ := reduce_safe T C F env s (topState s) st p la hst h.chain hred
   have hpop : ∀ x ∈ (s.syms.take prod.rhs.length).reverse, GoodSym I x := by
     intro x hx
     exact h.good.syms x (List.mem_of_mem_take (List.mem_reverse.mp hx))
